@@ -647,6 +647,8 @@ def _rs_utc_reference(ctx, mir, f: mirfront.MirFn, sf) -> None:
                "the end of the month, and the month/day components then differ from the pure-Python helper", rel)
         return
     for name, g in sorted(rollers.items()):
+        if _roll_tabulate(ctx, name, g, sf, idx, rel):
+            continue
         try:
             canr = Canon({"self": "S"})
             got = set()
@@ -662,6 +664,66 @@ def _rs_utc_reference(ctx, mir, f: mirfront.MirFn, sf) -> None:
                     "day < 1 -> last day of the previous month, day > month length -> first of the next month, with the year carried", rel)
         except (core.Unsupported, AssertionError, AttributeError) as e:
             ctx.unverified("UTCSHIFT.roll", f"rs:{name}", str(e), rel)
+
+
+def _roll_tabulate(ctx, name: str, g, sf, idx, rel: str) -> bool:
+    """UTCSHIFT.roll decided on values: the path summaries of the function that rolls a day out of its month (MIR, symbolic)
+    are evaluated by the checker's arithmetic evaluator for every month of common, leap, long and century years and the days
+    0, 1, mid-month, last, last + 1: the (year, month, day) left must be the date `first of the month + (day - 1) days` of the
+    standard library's calendar.  False: outside the evaluator (the syntactic comparison with the reference model decides)."""
+    import datetime as _dt
+    from types import SimpleNamespace as NS
+    dpm = core.const("constants", "DAYS_PER_MONTHS")
+
+    def comp(src: str):
+        tree = ast.parse(src, mode="eval")
+        for n in ast.walk(tree):
+            if not isinstance(n, _MB_OK):
+                raise core.Unsupported(type(n).__name__)
+            if isinstance(n, ast.Call) and un(n.func) not in ("is_leap", "is_long_year", "days_in_year", "max", "min"):
+                raise core.Unsupported(un(n)[:40])
+            if isinstance(n, ast.Name) and n.id not in ("S", "DAYS_PER_MONTHS", "is_leap", "is_long_year", "days_in_year", "max", "min"):
+                raise core.Unsupported(n.id)
+        code = compile(tree, "<summary>", "eval")
+        return lambda env: eval(code, {"__builtins__": {}, "max": max, "min": min}, env)      # noqa: S307 - whitelisted arithmetic only
+    greg = lambda y: int(y % 4 == 0 and (y % 100 != 0 or y % 400 == 0))      # noqa: E731
+    try:
+        canr = Canon({"self": "S"})
+        paths = []
+        for p in mirsym.Sym(g, sf).run(0, mirsym.NEVER):
+            conds = []
+            for v, k in p.conds:
+                cb = mirsym.cond_bool(v, k)
+                if cb is None:
+                    raise core.Unsupported("non-boolean branch")
+                t, pol = canr.cond(*cb)
+                conds.append((comp(t), pol))
+            vals = []
+            for n in ("year", "month", "day"):
+                v = p.state.get(f"FIELD:((*_1).{idx[n]}: i32)")
+                vals.append(comp(canr.s(v)) if v is not None else (lambda env, n=n: getattr(env["S"], n)))
+            paths.append((conds, vals))
+        bad, n_in = [], 0
+        for year in (1999, 2000, 2004, 2015, 2020, 2021, 2023, 2024, 2100):
+            for month in range(1, 13):
+                dim = dpm[greg(year)][month]
+                for day in (0, 1, 15, dim, dim + 1):
+                    env = {"S": NS(year=year, month=month, day=day), "DAYS_PER_MONTHS": dpm, "is_leap": greg,
+                           "is_long_year": lambda y: int(_dt.date(y, 12, 28).isocalendar()[1] == 53), "days_in_year": lambda y: 365 + greg(y)}
+                    live = [p for p in paths if all(bool(c(env)) == pol for c, pol in p[0])]
+                    n_in += 1
+                    if len(live) != 1:
+                        return False
+                    got = tuple(f(env) for f in live[0][1])
+                    w = _dt.date(year, month, 1) + _dt.timedelta(days=day - 1)
+                    if got != (w.year, w.month, w.day):
+                        bad.append(f"{year}-{month:02d} day {day} -> {got} (expected {w.isoformat()})")
+    except (core.Unsupported, SyntaxError, KeyError, IndexError, AttributeError, NameError, TypeError, AssertionError):
+        return False
+    ctx.ob("UTCSHIFT.roll", f"rs:{name.rsplit('::', 1)[-1]}", not bad,
+           f"{n_in} (year, month, day) inputs evaluated on the path summaries: " + (f"wrong date: {bad[:3]}" if bad else
+           "day 0 becomes the last day of the previous month, last + 1 the first of the next, the year carried, everything else is kept"), rel)
+    return True
 
 
 def _rs_order_key(ctx, mir, sf) -> None:
@@ -887,6 +949,10 @@ def run(ctx) -> None:
     from . import C15
     ctx.step(C15.clamp_dependencies, ctx)
     ctx.step(AD.month_clamp_order, ctx)    # a + (b - a) == b relies on the month shift / clamp of add_duration
+    from . import C04
+    # ... and on `+ Interval` handing add() the Interval's own components (DateTime and Date pairs)
+    ctx.step(C04._siblings, ctx, pmod("datetime"), "DateTime", "_add_timedelta_", "_subtract_timedelta", AD.ADD_PARAMS)
+    ctx.step(C04._siblings, ctx, pmod("date"), "Date", "_add_timedelta", "_subtract_timedelta", ["years", "months", "weeks", "days"])
     ctx.expect_min("BORROW", 6)
     ctx.expect_min("UTCSHIFT", 4)
     if mir is not None:
